@@ -589,7 +589,11 @@ class ProcInit(Unit):
         st.env.update(self=self.me, args=StarPack(z3.Const('args', Val)), kwargs=(NONE if self.caller_none else self.caller), moreargs=KwPack(z3.Const('moreargs', Val)))
         ex.globals['multiprocessing.connection.Pipe'] = Fn(lambda e, s, a, k, n: [('ok', s, PyTuple([self.reader, self.writer]))], trusted='Pipe(duplex=False) returns (read end, write end)')
         self.logq = Rec(ex, 'logq')
-        ex.globals['MP_SPAWN_CTX'] = Rec(ex, 'ctx', methods={'Queue': Fn(lambda e, s, a, k, n: [('ok', s, self.logq)])})
+        def mkq(e, s, a, k, n):
+            # [C20] the child's logging.handlers.QueueHandler enqueues with put_nowait: on a bounded queue that is full the record is dropped in the child
+            e.oblige(s, f'line {n.lineno}: [C20] the log queue is unbounded (the child enqueues records without blocking: a full queue would drop them)', z3.BoolVal(not a and not k))
+            return [('ok', s, self.logq)]
+        ex.globals['MP_SPAWN_CTX'] = Rec(ex, 'ctx', methods={'Queue': Fn(mkq)})
         self.copies = []
 
         def mkdict(e, s, a, k, n):
